@@ -22,7 +22,8 @@ def gen_hist(rng, nops):
             t = rng.choice(T.TABLES)
             v = T.gen_value(rng, t, pools[t])
             pools[t].append(v); pools[t] = pools[t][-8:]
-            toks.append("a%s:%d:%s" % (t, b, v))
+            # mostly through the public add_*, sometimes as the reader stores entries (add_value: equal values kept apart)
+            toks.append("%s%s:%d:%s" % ("v" if rng.random() < 0.25 else "a", t, b, v))
         elif k < 0.6:
             t = rng.choice(T.TABLES)
             toks.append("g%s:%d:%d" % (t, b, rng.randrange(6)))
